@@ -306,7 +306,8 @@ class Check(common.Check):
         'transition_table_step', 'terminal_sticky', 'paused_raises_until_resume', 'self_ops_refused',
         'reentrant_next_refused', 'cond_signal_false_is_noop', 'cond_resumes_once_after_true_signal',
         'cond_wait_parks_outermost_once', 'cond_wait_true_continues', 'tick_reschedules_iff_number',
-        'cond_never_before', 'flowvar_single_assignment')]
+        'cond_never_before', 'flowvar_single_assignment', 'call_stack_well_formed',
+        'active_frame_has_position', 'pending_result_meets_its_nest')]
     N_QUICK = 1500
     N_THOROUGH = 40000
     ASSUMPTIONS = [
